@@ -158,3 +158,568 @@ Proof.
   rewrite ms_count_wsum, Z.mul_comm, <- wsum_scal. apply wsum_ext. intros w.
   unfold ind. destruct (Z.eqb_spec w x) as [->|_]; ring.
 Qed.
+
+Lemma wsum_at (f : Z -> Z) x P : wsum (fun w => ind (w =? x) * f w) P = ms_count x P * f x.
+Proof.
+  rewrite ms_count_wsum, Z.mul_comm, <- wsum_scal. apply wsum_ext. intros w.
+  unfold ind. destruct (Z.eqb_spec w x) as [->|_]; ring.
+Qed.
+
+(* ---------------------------------------------------------------------------------------- *)
+(* (B) the variance of the mid-ranks, with ties                                               *)
+(* ---------------------------------------------------------------------------------------- *)
+Lemma dc_cons x c P w :
+  dc ((x, c) :: P) w = dc P w + c * (1 - ind (w =? x) - 2 * ind (w <? x)).
+Proof.
+  unfold dc. rewrite r2c_cons, ms_n_cons. unfold ind.
+  destruct (Z.ltb_spec x w), (Z.eqb_spec x w), (Z.eqb_spec w x), (Z.ltb_spec w x);
+    try (exfalso; lia); ring.
+Qed.
+
+Lemma dc_cons_self x c P : dc ((x, c) :: P) x = dc P x.
+Proof. rewrite dc_cons, Z.eqb_refl, Z.ltb_irrefl. unfold ind. ring. Qed.
+
+Theorem rank_variance P :
+  3 * wsum (fun w => dc P w * dc P w) P
+  = ms_n P * ms_n P * ms_n P - wsum (fun w => ms_count w P * ms_count w P) P.
+Proof.
+  induction P as [|[x c] P IH]; [reflexivity|].
+  rewrite !wsum_cons, dc_cons_self, ms_n_cons.
+  rewrite (wsum_ext (fun w => dc ((x, c) :: P) w * dc ((x, c) :: P) w)
+     (fun w => dc P w * dc P w
+               + ((2 * c) * (dc P w + ((-1) * (ind (w =? x) * dc P w) + (-2) * (ind (w <? x) * dc P w)))
+                  + (c * c) * (1 + (-1) * ind (w =? x))))).
+  2:{ intros w. rewrite dc_cons. unfold ind.
+      destruct (Z.ltb_spec w x), (Z.eqb_spec w x); try (exfalso; lia); ring. }
+  rewrite (wsum_ext (fun w => ms_count w ((x, c) :: P) * ms_count w ((x, c) :: P))
+     (fun w => ms_count w P * ms_count w P
+               + ((2 * c) * (ind (w =? x) * ms_count w P) + (c * c) * ind (w =? x)))).
+  2:{ intros w. rewrite ms_count_cons, (Z.eqb_sym x w). unfold ind.
+      destruct (Z.eqb_spec w x); ring. }
+  rewrite !wsum_add, !wsum_scal, !wsum_add, !wsum_scal.
+  rewrite dc_sum_zero, dc_sum_at, dc_sum_below, (wsum_at (fun w => ms_count w P)).
+  rewrite <- ms_n_wsum, <- ms_count_wsum, ms_count_cons, Z.eqb_refl.
+  change (ind true) with 1.
+  set (V := wsum (fun w => dc P w * dc P w) P) in *.
+  set (U := wsum (fun w => ms_count w P * ms_count w P) P) in *.
+  replace U with (ms_n P * ms_n P * ms_n P - 3 * V) by lia.
+  unfold dc, r2c. ring.
+Qed.
+
+(* the tie term of scipy: sum over the distinct values of t^3 - t, as a sum over the rows *)
+Lemma zmem_false_count x u : zmem x (map fst u) = false -> ms_count x u = 0.
+Proof.
+  induction u as [|[y c] u IH]; [reflexivity|]. cbn [map fst zmem]. intros H.
+  apply orb_false_iff in H. destruct H as [H1 H2]. rewrite ms_count_cons, IH by exact H2.
+  rewrite Z.eqb_sym, H1. unfold ind. ring.
+Qed.
+
+Lemma distinct_at_out (g : Z -> Z) x k l : zmem x l = false ->
+  fold_right (fun v acc => g v * (k * ind (x =? v)) + acc) 0 (zdistinct l) = 0.
+Proof.
+  induction l as [|y l IH]; [reflexivity|]. cbn [zmem zdistinct]. intros H.
+  apply orb_false_iff in H. destruct H as [H1 H2].
+  destruct (zmem y l); [apply IH, H2|]. cbn [fold_right]. rewrite IH by exact H2.
+  rewrite H1. unfold ind. ring.
+Qed.
+
+Lemma distinct_at_in (g : Z -> Z) x k l : zmem x l = true ->
+  fold_right (fun v acc => g v * (k * ind (x =? v)) + acc) 0 (zdistinct l) = k * g x.
+Proof.
+  induction l as [|y l IH]; [discriminate|]. cbn [zmem zdistinct]. intros H.
+  destruct (Z.eqb_spec x y) as [->|Hne]; cbn [orb] in H.
+  - destruct (zmem y l) eqn:Ey; [apply IH; reflexivity|].
+    cbn [fold_right]. rewrite (distinct_at_out g y k l Ey), Z.eqb_refl. unfold ind. ring.
+  - destruct (zmem y l) eqn:Ey; [apply IH, H|].
+    cbn [fold_right]. rewrite (IH H). destruct (Z.eqb_spec x y); [contradiction|]. unfold ind. ring.
+Qed.
+
+Lemma distinct_sum (g : Z -> Z) u :
+  fold_right (fun v acc => g v * ms_count v u + acc) 0 (zdistinct (map fst u)) = wsum g u.
+Proof.
+  induction u as [|[x k] u IH]; [reflexivity|].
+  rewrite wsum_cons, <- IH. cbn [map fst].
+  assert (E : forall l,
+    fold_right (fun v acc => g v * ms_count v ((x, k) :: u) + acc) 0 l
+    = fold_right (fun v acc => g v * ms_count v u + acc) 0 l
+      + fold_right (fun v acc => g v * (k * ind (x =? v)) + acc) 0 l).
+  { induction l as [|v l IHl]; [reflexivity|]. cbn [fold_right]. rewrite IHl, ms_count_cons. ring. }
+  cbn [zdistinct]. destruct (zmem x (map fst u)) eqn:Ex.
+  - rewrite E, (distinct_at_in g x k _ Ex). ring.
+  - cbn [fold_right]. rewrite E, (distinct_at_out g x k _ Ex), ms_count_cons, Z.eqb_refl,
+      (zmem_false_count x u Ex). unfold ind. ring.
+Qed.
+
+Lemma tie_sum_rows P :
+  fold_right (fun v acc => let t := ms_count v P in t * t * t - t + acc) 0 (zdistinct (map fst P))
+  = wsum (fun w => ms_count w P * ms_count w P) P - ms_n P.
+Proof.
+  rewrite ms_n_wsum.
+  replace (wsum (fun w => ms_count w P * ms_count w P) P - wsum (fun _ => 1) P)
+    with (wsum (fun w => ms_count w P * ms_count w P - 1) P).
+  2:{ rewrite (wsum_ext _ (fun w => ms_count w P * ms_count w P + (-1) * 1)) by (intros w; ring).
+      rewrite wsum_add, wsum_scal. ring. }
+  rewrite <- distinct_sum. cbn zeta. generalize (zdistinct (map fst P)) as l.
+  induction l as [|v l IHl]; [reflexivity|]. cbn [fold_right]. rewrite IHl. ring.
+Qed.
+
+(* N^3 - N - sum (t^3 - t) = 3 sum_j d_j^2 *)
+Corollary tie_denominator P :
+  (ms_n P * ms_n P * ms_n P - ms_n P)
+  - fold_right (fun v acc => let t := ms_count v P in t * t * t - t + acc) 0 (zdistinct (map fst P))
+  = 3 * wsum (fun w => dc P w * dc P w) P.
+Proof. rewrite tie_sum_rows, rank_variance. ring. Qed.
+
+Lemma tie_denominator' P :
+  (ms_n P * ms_n P * ms_n P - ms_n P)
+  - fold_right (fun v acc => ms_count v P * ms_count v P * ms_count v P - ms_count v P + acc) 0
+               (zdistinct (map fst P))
+  = 3 * wsum (fun w => dc P w * dc P w) P.
+Proof. exact (tie_denominator P). Qed.
+
+(* ---------------------------------------------------------------------------------------- *)
+(* (C) Cauchy-Schwarz with non-negative weights                                               *)
+(* ---------------------------------------------------------------------------------------- *)
+Definition nonneg_ms (u : ymset) : Prop := Forall (fun e => 0 <= snd e) u.
+
+Lemma wsum_mono f g u : nonneg_ms u -> (forall v, f v <= g v) -> wsum f u <= wsum g u.
+Proof.
+  intros Hu Hfg. induction Hu as [|[x c] u Hc _ IH]; [cbn; lia|].
+  rewrite !wsum_cons. cbn [snd] in Hc. pose proof (Hfg x). nia.
+Qed.
+
+Lemma wsum_nonneg f u : nonneg_ms u -> (forall v, 0 <= f v) -> 0 <= wsum f u.
+Proof. intros Hu Hf. rewrite <- (wsum_zero u). apply wsum_mono; assumption. Qed.
+
+Lemma ms_n_nonneg u : nonneg_ms u -> 0 <= ms_n u.
+Proof. intros Hu. rewrite ms_n_wsum. apply wsum_nonneg; [exact Hu|]. intros _. lia. Qed.
+
+Lemma wsum_square_expand f a b u :
+  wsum (fun v => (a - b * f v) * (a - b * f v)) u
+  = a * a * wsum (fun _ => 1) u - 2 * a * b * wsum f u + b * b * wsum (fun v => f v * f v) u.
+Proof. induction u as [|[x c] u IH]; [cbn; ring|]. rewrite !wsum_cons, IH. ring. Qed.
+
+Lemma cauchy_schwarz f u : nonneg_ms u -> 0 < ms_n u ->
+  wsum f u * wsum f u <= ms_n u * wsum (fun v => f v * f v) u.
+Proof.
+  intros Hu Hn.
+  pose proof (wsum_nonneg (fun v => (wsum f u - ms_n u * f v) * (wsum f u - ms_n u * f v)) u Hu
+                          (fun v => Z.square_nonneg _)) as H.
+  rewrite wsum_square_expand, <- ms_n_wsum in H.
+  set (C := wsum f u) in *. set (n := ms_n u) in *. set (Q := wsum (fun v => f v * f v) u) in *.
+  destruct (Z.le_gt_cases (C * C) (n * Q)) as [Hle|Hgt]; [exact Hle|exfalso].
+  assert (Hneg : n * (n * Q - C * C) < 0) by (apply Z.mul_pos_neg; lia).
+  replace (C * C * n - 2 * C * n * C + n * n * Q) with (n * (n * Q - C * C)) in H by ring. lia.
+Qed.
+
+(* ---------------------------------------------------------------------------------------- *)
+(* sums over the groups                                                                       *)
+(* ---------------------------------------------------------------------------------------- *)
+Definition gsum (F : ymset -> Z) (gs : list ymset) : Z := fold_right (fun g acc => F g + acc) 0 gs.
+Definition qsum (F : ymset -> Q) (gs : list ymset) : Q :=
+  fold_right (fun g acc => Qplus (F g) acc) 0%Q gs.
+
+Lemma wsum_union f gs : wsum f (ms_union gs) = gsum (wsum f) gs.
+Proof.
+  unfold ms_union. induction gs as [|g gs IH]; [reflexivity|].
+  cbn [concat gsum fold_right]. rewrite wsum_app, IH. reflexivity.
+Qed.
+
+Lemma gsum_ext F G gs : (forall g, In g gs -> F g = G g) -> gsum F gs = gsum G gs.
+Proof.
+  induction gs as [|g gs IH]; intros H; [reflexivity|]. cbn [gsum fold_right].
+  rewrite (H g (or_introl eq_refl)). f_equal. apply IH. intros k Hk. apply H. right. exact Hk.
+Qed.
+
+Lemma ms_n_union gs : ms_n (ms_union gs) = gsum ms_n gs.
+Proof. rewrite ms_n_wsum, wsum_union. apply gsum_ext. intros g _. symmetry. apply ms_n_wsum. Qed.
+
+(* ---------------------------------------------------------------------------------------- *)
+(* algebra over Q                                                                             *)
+(* ---------------------------------------------------------------------------------------- *)
+Lemma q4_add a b : ((a + b) # 4) == (a # 4) + (b # 4).
+Proof. unfold Qeq, Qplus. cbn [Qnum Qden]. rewrite Pos2Z.inj_mul. ring. Qed.
+
+Lemma term_center S C K m : 0 < m -> S = C + K * m ->
+  ((S * S) # Z.to_pos (4 * m)) ==
+  ((C * C) # Z.to_pos (4 * m)) + (K # 2) * inject_Z C + ((K * K) # 4) * inject_Z m.
+Proof.
+  intros Hm ->. unfold Qeq, Qplus, Qmult, inject_Z. cbn [Qnum Qden].
+  rewrite !Pos2Z.inj_mul. rewrite !Z2Pos.id by lia. ring.
+Qed.
+
+Lemma term_le C m Qg : 0 < m -> C * C <= m * Qg -> (((C * C) # Z.to_pos (4 * m)) <= (Qg # 4))%Q.
+Proof. intros Hm H. unfold Qle. cbn [Qnum Qden]. rewrite Z2Pos.id by lia. lia. Qed.
+
+Lemma term_eq C m Qg : 0 < m -> C * C = m * Qg -> ((C * C) # Z.to_pos (4 * m)) == (Qg # 4).
+Proof. intros Hm H. unfold Qeq. cbn [Qnum Qden]. rewrite Z2Pos.id by lia. lia. Qed.
+
+Lemma qsum_center (S C n : ymset -> Z) K gs :
+  (forall g, In g gs -> 0 < n g /\ S g = C g + K * n g) ->
+  qsum (fun g => (S g * S g) # Z.to_pos (4 * n g)) gs ==
+  qsum (fun g => (C g * C g) # Z.to_pos (4 * n g)) gs
+  + (K # 2) * inject_Z (gsum C gs) + ((K * K) # 4) * inject_Z (gsum n gs).
+Proof.
+  induction gs as [|g gs IH]; intros H.
+  - cbn [qsum gsum fold_right]. change (inject_Z 0) with 0%Q. ring.
+  - cbn [qsum gsum fold_right]. fold (qsum (fun g => (S g * S g) # Z.to_pos (4 * n g)) gs).
+    fold (qsum (fun g => (C g * C g) # Z.to_pos (4 * n g)) gs). fold (gsum C gs). fold (gsum n gs).
+    rewrite IH by (intros k Hk; apply H; right; exact Hk).
+    destruct (H g (or_introl eq_refl)) as [Hm HS].
+    rewrite (term_center (S g) (C g) K (n g) Hm HS), !inject_Z_plus. ring.
+Qed.
+
+Lemma qsum_le (C n Qf : ymset -> Z) gs :
+  (forall g, In g gs -> 0 < n g /\ C g * C g <= n g * Qf g) ->
+  (qsum (fun g => (C g * C g) # Z.to_pos (4 * n g)) gs <= (gsum Qf gs # 4))%Q.
+Proof.
+  induction gs as [|g gs IH]; intros H.
+  - cbn [qsum gsum fold_right]. unfold Qle. cbn. lia.
+  - cbn [qsum gsum fold_right]. fold (qsum (fun g => (C g * C g) # Z.to_pos (4 * n g)) gs).
+    fold (gsum Qf gs). rewrite q4_add. destruct (H g (or_introl eq_refl)) as [Hm HC].
+    apply Qplus_le_compat; [apply term_le; assumption|].
+    apply IH. intros k Hk. apply H. right. exact Hk.
+Qed.
+
+Lemma qsum_eq (C n Qf : ymset -> Z) gs :
+  (forall g, In g gs -> 0 < n g /\ C g * C g = n g * Qf g) ->
+  qsum (fun g => (C g * C g) # Z.to_pos (4 * n g)) gs == (gsum Qf gs # 4).
+Proof.
+  induction gs as [|g gs IH]; intros H.
+  - cbn [qsum gsum fold_right]. unfold Qeq. reflexivity.
+  - cbn [qsum gsum fold_right]. fold (qsum (fun g => (C g * C g) # Z.to_pos (4 * n g)) gs).
+    fold (gsum Qf gs). rewrite q4_add. destruct (H g (or_introl eq_refl)) as [Hm HC].
+    rewrite (term_eq _ _ _ Hm HC), IH by (intros k Hk; apply H; right; exact Hk). reflexivity.
+Qed.
+
+(* ---------------------------------------------------------------------------------------- *)
+(* the shape of Measures.kruskal                                                              *)
+(* ---------------------------------------------------------------------------------------- *)
+Definition sq_dev (P : ymset) : Z := wsum (fun w => dc P w * dc P w) P.
+
+Definition kruskal_value (gs : list ymset) : Q :=
+  let P := ms_union gs in
+  let N := ms_n P in
+  Qdiv (Qminus (Qmult (Qmake 12 (Z.to_pos (N * (N + 1))))
+                      (qsum (fun g => (rank2_sum P g * rank2_sum P g) # Z.to_pos (4 * ms_n g)) gs))
+               (inject_Z (3 * (N + 1))))
+       (Qmake (3 * sq_dev P) (Z.to_pos (N * N * N - N))).
+
+Lemma kruskal_unfold gs :
+  kruskal gs =
+  if (ms_n (ms_union gs) <=? 1) || (3 * sq_dev (ms_union gs) =? 0)
+     || existsb (fun g => ms_n g =? 0) gs
+  then None else Some (Qred (kruskal_value gs)).
+Proof. unfold kruskal, kruskal_value, sq_dev. cbn zeta. rewrite tie_denominator'. reflexivity. Qed.
+
+Lemma existsb_zero_false gs :
+  existsb (fun g => ms_n g =? 0) gs = false -> forall g, In g gs -> ms_n g <> 0.
+Proof.
+  intros H g Hg E. assert (X : existsb (fun g => ms_n g =? 0) gs = true).
+  { apply existsb_exists. exists g. split; [exact Hg|]. apply Z.eqb_eq, E. }
+  rewrite X in H. discriminate.
+Qed.
+
+Lemma existsb_zero_intro gs :
+  (forall g, In g gs -> ms_n g <> 0) -> existsb (fun g => ms_n g =? 0) gs = false.
+Proof.
+  intros H. destruct (existsb (fun g => ms_n g =? 0) gs) eqn:E; [|reflexivity].
+  apply existsb_exists in E. destruct E as [g [Hg E]]. apply Z.eqb_eq in E. destruct (H g Hg E).
+Qed.
+
+(* ---------------------------------------------------------------------------------------- *)
+(* the common part: H as a function of the centred rank sums                                  *)
+(* ---------------------------------------------------------------------------------------- *)
+Lemma rank2_sum_centred gs g :
+  rank2_sum (ms_union gs) g
+  = wsum (dc (ms_union gs)) g + (ms_n (ms_union gs) + 1) * ms_n g.
+Proof.
+  rewrite rank2_sum_wsum,
+    (wsum_ext _ (fun w => dc (ms_union gs) w + (ms_n (ms_union gs) + 1) * 1))
+    by (intros w; rewrite rank2_dc; ring).
+  rewrite wsum_add, wsum_scal, <- ms_n_wsum. reflexivity.
+Qed.
+
+Lemma centred_total gs : gsum (fun g => wsum (dc (ms_union gs)) g) gs = 0.
+Proof.
+  change (gsum (wsum (dc (ms_union gs))) gs = 0). rewrite <- wsum_union. apply dc_sum_zero.
+Qed.
+
+Lemma sq_dev_groups gs :
+  gsum (fun g => wsum (fun w => dc (ms_union gs) w * dc (ms_union gs) w) g) gs
+  = sq_dev (ms_union gs).
+Proof. unfold sq_dev. rewrite (wsum_union _ gs). reflexivity. Qed.
+
+(* numerator of H *)
+Lemma kruskal_numerator gs :
+  1 < ms_n (ms_union gs) -> (forall g, In g gs -> 0 < ms_n g) ->
+  (Qminus (Qmult (Qmake 12 (Z.to_pos (ms_n (ms_union gs) * (ms_n (ms_union gs) + 1))))
+                 (qsum (fun g => (rank2_sum (ms_union gs) g * rank2_sum (ms_union gs) g)
+                                 # Z.to_pos (4 * ms_n g)) gs))
+          (inject_Z (3 * (ms_n (ms_union gs) + 1)))
+   == Qmult (Qmake 12 (Z.to_pos (ms_n (ms_union gs) * (ms_n (ms_union gs) + 1))))
+            (qsum (fun g => (wsum (dc (ms_union gs)) g * wsum (dc (ms_union gs)) g)
+                            # Z.to_pos (4 * ms_n g)) gs))%Q.
+Proof.
+  intros HN Hpos.
+  rewrite (qsum_center (rank2_sum (ms_union gs)) (fun g => wsum (dc (ms_union gs)) g) ms_n
+                       (ms_n (ms_union gs) + 1) gs)
+    by (intros g Hg; split; [apply Hpos, Hg | apply rank2_sum_centred]).
+  rewrite centred_total, <- ms_n_union.
+  set (N := ms_n (ms_union gs)) in *.
+  assert (E1 : ((12 # Z.to_pos (N * (N + 1))) * ((((N + 1) * (N + 1)) # 4) * inject_Z N)
+                == inject_Z (3 * (N + 1)))%Q).
+  { unfold Qeq, Qmult, inject_Z. cbn [Qnum Qden]. rewrite !Pos2Z.inj_mul.
+    rewrite Z2Pos.id by nia. ring. }
+  rewrite <- E1. change (inject_Z 0) with 0%Q. ring.
+Qed.
+
+(* (N - 1) times the tie correction *)
+Lemma kruskal_scale N X :
+  1 < N ->
+  ((12 # Z.to_pos (N * (N + 1))) * (X # 4)
+   == inject_Z (N - 1) * ((3 * X) # Z.to_pos (N * N * N - N)))%Q.
+Proof.
+  intros HN. unfold Qeq, Qmult, inject_Z. cbn [Qnum Qden]. rewrite !Pos2Z.inj_mul.
+  rewrite !Z2Pos.id by nia. ring.
+Qed.
+
+(* ---------------------------------------------------------------------------------------- *)
+(* Theorem 1: H <= N - 1                                                                      *)
+(* ---------------------------------------------------------------------------------------- *)
+Definition groups_nonneg (gs : list ymset) : Prop := Forall nonneg_ms gs.
+
+Lemma nonneg_union gs : groups_nonneg gs -> nonneg_ms (ms_union gs).
+Proof.
+  unfold ms_union, nonneg_ms. induction 1 as [|g gs Hg _ IH]; [constructor|].
+  cbn [concat]. apply Forall_app. split; assumption.
+Qed.
+
+Theorem kruskal_le_value gs :
+  groups_nonneg gs -> 1 < ms_n (ms_union gs) -> 3 * sq_dev (ms_union gs) <> 0 ->
+  (forall g, In g gs -> ms_n g <> 0) ->
+  (kruskal_value gs <= inject_Z (ms_n (ms_union gs) - 1))%Q.
+Proof.
+  intros Hwf HN HE Hne. unfold kruskal_value. cbn zeta.
+  assert (Hwf' : forall g, In g gs -> nonneg_ms g) by (apply Forall_forall, Hwf).
+  set (P := ms_union gs) in *. set (N := ms_n P) in *.
+  assert (Hpos : forall g, In g gs -> 0 < ms_n g).
+  { intros g Hg. pose proof (Hne g Hg). pose proof (ms_n_nonneg g (Hwf' g Hg)). lia. }
+  assert (HE0 : 0 <= sq_dev P).
+  { apply wsum_nonneg; [apply nonneg_union, Hwf|]. intros v. apply Z.square_nonneg. }
+  assert (HD : 0 < N * N * N - N) by nia.
+  apply Qle_shift_div_r; [unfold Qlt; cbn [Qnum Qden]; lia|].
+  unfold N; unfold P. rewrite (kruskal_numerator gs HN Hpos). fold P. fold N.
+  rewrite <- (kruskal_scale N (sq_dev P) HN).
+  apply Qmult_le_l; [reflexivity|].
+  pose proof (sq_dev_groups gs) as Hsq. fold P in Hsq. rewrite <- Hsq.
+  apply (qsum_le (fun g => wsum (dc P) g) ms_n (fun g => wsum (fun w => dc P w * dc P w) g)).
+  intros g Hg. split; [apply Hpos, Hg|].
+  apply cauchy_schwarz; [apply Hwf', Hg | apply Hpos, Hg].
+Qed.
+
+Theorem kruskal_upper_bound gs h :
+  Forall (Forall (fun e : Z * Z => 0 < snd e)) gs -> kruskal gs = Some h ->
+  (h <= inject_Z (ms_n (ms_union gs) - 1))%Q.
+Proof.
+  intros Hwf Hk. rewrite kruskal_unfold in Hk.
+  destruct ((ms_n (ms_union gs) <=? 1) || (3 * sq_dev (ms_union gs) =? 0)
+            || existsb (fun g => ms_n g =? 0) gs) eqn:Hc; [discriminate|].
+  assert (Eh : h = Qred (kruskal_value gs)) by congruence. rewrite Eh, Qred_correct. clear Hk Eh.
+  apply orb_false_iff in Hc. destruct Hc as [Hc Hex]. apply orb_false_iff in Hc. destruct Hc as [H1 H2].
+  apply kruskal_le_value.
+  - eapply Forall_impl; [|exact Hwf]. intros g Hg. eapply Forall_impl; [|exact Hg].
+    intros e He. cbn beta in He. lia.
+  - lia.
+  - lia.
+  - apply existsb_zero_false, Hex.
+Qed.
+
+(* ---------------------------------------------------------------------------------------- *)
+(* Theorem 2: a feature that is constant on every class, with pairwise distinct values         *)
+(* (an exact copy of / any injective re-encoding of the class target) reaches N - 1            *)
+(* ---------------------------------------------------------------------------------------- *)
+Definition single_valued (v : Z) (g : ymset) : Prop :=
+  g <> [] /\ Forall (fun e : Z * Z => fst e = v /\ 0 < snd e) g.
+
+Lemma single_valued_wsum f v g :
+  Forall (fun e : Z * Z => fst e = v /\ 0 < snd e) g -> wsum f g = ms_n g * f v.
+Proof.
+  induction 1 as [|[x c] g [Hx Hc] _ IH]; [cbn; ring|]. cbn [fst] in Hx. subst x.
+  rewrite wsum_cons, ms_n_cons, IH. ring.
+Qed.
+
+Lemma single_valued_nonneg v g : single_valued v g -> nonneg_ms g.
+Proof.
+  intros [_ H]. eapply Forall_impl; [|exact H]. intros e [_ He]. lia.
+Qed.
+
+Lemma single_valued_pos v g : single_valued v g -> 0 < ms_n g.
+Proof.
+  intros Hs. pose proof (single_valued_nonneg v g Hs) as Hn. destruct Hs as [Hne H].
+  destruct g as [|[x c] g]; [contradiction|]. inversion H as [|? ? [_ Hc] _]; subst.
+  inversion Hn as [|? ? _ Hn']; subst. rewrite ms_n_cons. pose proof (ms_n_nonneg g Hn').
+  cbn [snd] in Hc. lia.
+Qed.
+
+Lemma ms_count_nonneg v u : nonneg_ms u -> 0 <= ms_count v u.
+Proof.
+  intros Hu. rewrite ms_count_wsum. apply wsum_nonneg; [exact Hu|]. intros w. unfold ind.
+  destruct (w =? v); lia.
+Qed.
+
+Lemma ms_count_ge v k u : nonneg_ms u -> In (v, k) u -> k <= ms_count v u.
+Proof.
+  intros Hu. induction Hu as [|[x c] u Hc Hu IH]; intros Hin; [destruct Hin|].
+  rewrite ms_count_cons. cbn [snd] in Hc. destruct Hin as [E|Hin].
+  - injection E as -> ->. rewrite Z.eqb_refl. pose proof (ms_count_nonneg v u Hu). unfold ind. lia.
+  - pose proof (IH Hin). unfold ind. destruct (x =? v); lia.
+Qed.
+
+Lemma less_step P v1 v2 : nonneg_ms P -> v1 < v2 -> ms_less v1 P + ms_count v1 P <= ms_less v2 P.
+Proof.
+  intros HP Hlt. rewrite !ms_less_wsum, ms_count_wsum, <- wsum_add. apply wsum_mono; [exact HP|].
+  intros w. unfold ind. destruct (Z.ltb_spec w v1), (Z.eqb_spec w v1), (Z.ltb_spec w v2); lia.
+Qed.
+
+Lemma dc_strict P v1 v2 :
+  nonneg_ms P -> v1 < v2 -> 0 < ms_count v1 P + ms_count v2 P -> dc P v1 < dc P v2.
+Proof.
+  intros HP Hlt Hc. pose proof (less_step P v1 v2 HP Hlt). unfold dc, r2c. lia.
+Qed.
+
+Lemma wsum_zero_terms f u :
+  nonneg_ms u -> (forall v, 0 <= f v) -> wsum f u = 0 ->
+  forall v k, In (v, k) u -> 0 < k -> f v = 0.
+Proof.
+  intros Hu Hf. induction Hu as [|[x c] u Hc Hu IH]; intros H0 v k Hin Hk; [destruct Hin|].
+  rewrite wsum_cons in H0. cbn [snd] in Hc.
+  pose proof (wsum_nonneg f u Hu Hf) as Hw. pose proof (Hf x) as Hfx.
+  assert (Hcx : 0 <= c * f x) by (apply Z.mul_nonneg_nonneg; assumption).
+  destruct Hin as [E|Hin].
+  - injection E as -> ->. assert (Hz : k * f v = 0) by lia.
+    apply Z.mul_eq_0 in Hz. destruct Hz; [lia|assumption].
+  - apply (IH ltac:(lia) v k Hin Hk).
+Qed.
+
+Lemma sq_dev_pos P v1 k1 v2 k2 :
+  nonneg_ms P -> In (v1, k1) P -> In (v2, k2) P -> 0 < k1 -> 0 < k2 -> v1 <> v2 -> 0 < sq_dev P.
+Proof.
+  intros HP H1 H2 Hk1 Hk2 Hne.
+  assert (H0 : 0 <= sq_dev P) by (apply wsum_nonneg; [exact HP|]; intros v; apply Z.square_nonneg).
+  destruct (Z.eq_dec (sq_dev P) 0) as [E|]; [exfalso|lia].
+  pose proof (wsum_zero_terms _ P HP (fun v => Z.square_nonneg (dc P v)) E) as Hz.
+  pose proof (Hz v1 k1 H1 Hk1) as Z1. pose proof (Hz v2 k2 H2 Hk2) as Z2.
+  apply Z.mul_eq_0 in Z1, Z2.
+  pose proof (ms_count_ge v1 k1 P HP H1). pose proof (ms_count_ge v2 k2 P HP H2).
+  destruct (Z.lt_total v1 v2) as [Hlt|[Heq|Hgt]]; [|contradiction|].
+  - pose proof (dc_strict P v1 v2 HP Hlt). lia.
+  - pose proof (dc_strict P v2 v1 HP Hgt). lia.
+Qed.
+
+Lemma Forall2_In_r {A B} (R : A -> B -> Prop) la lb b :
+  Forall2 R la lb -> In b lb -> exists a, In a la /\ R a b.
+Proof.
+  induction 1 as [|a0 b0 la lb HR _ IH]; intros Hin; [destruct Hin|].
+  destruct Hin as [<-|Hin]; [exists a0; split; [left; reflexivity|exact HR]|].
+  destruct (IH Hin) as [a [Ha HRa]]. exists a. split; [right; exact Ha|exact HRa].
+Qed.
+
+Lemma gsum_nonneg F gs : (forall g, In g gs -> 0 <= F g) -> 0 <= gsum F gs.
+Proof.
+  induction gs as [|g gs IH]; intros H; [cbn; lia|]. cbn [gsum fold_right]. fold (gsum F gs).
+  pose proof (H g (or_introl eq_refl)).
+  assert (0 <= gsum F gs) by (apply IH; intros k Hk; apply H; right; exact Hk). lia.
+Qed.
+
+Theorem kruskal_perfect_value vs gs :
+  Forall2 single_valued vs gs -> NoDup vs -> (2 <= List.length gs)%nat ->
+  kruskal gs = Some (Qred (kruskal_value gs))
+  /\ (kruskal_value gs == inject_Z (ms_n (ms_union gs) - 1))%Q.
+Proof.
+  intros HF Hnd Hlen.
+  assert (Hsv : forall g, In g gs -> exists v, single_valued v g).
+  { intros g Hg. destruct (Forall2_In_r _ _ _ g HF Hg) as [v [_ Hv]]. exists v. exact Hv. }
+  assert (Hpos : forall g, In g gs -> 0 < ms_n g).
+  { intros g Hg. destruct (Hsv g Hg) as [v Hv]. apply (single_valued_pos v g Hv). }
+  assert (Hwf : groups_nonneg gs).
+  { apply Forall_forall. intros g Hg. destruct (Hsv g Hg) as [v Hv].
+    apply (single_valued_nonneg v g Hv). }
+  assert (HP : nonneg_ms (ms_union gs)) by (apply nonneg_union, Hwf).
+  assert (HN : 1 < ms_n (ms_union gs) /\ 0 < sq_dev (ms_union gs)).
+  { destruct HF as [|v1 g1 vs1 gs1 H1 HF1]; [cbn in Hlen; lia|].
+    destruct HF1 as [|v2 g2 vs2 gs2 H2 HF2]; [cbn in Hlen; lia|]. split.
+    - rewrite ms_n_union. cbn [gsum fold_right]. fold (gsum ms_n gs2).
+      pose proof (Hpos g1 (or_introl eq_refl)). pose proof (Hpos g2 (or_intror (or_introl eq_refl))).
+      assert (0 <= gsum ms_n gs2).
+      { apply gsum_nonneg. intros g Hg. assert (0 < ms_n g) by (apply Hpos; right; right; exact Hg). lia. }
+      lia.
+    - destruct H1 as [Hne1 Hall1], H2 as [Hne2 Hall2].
+      destruct g1 as [|[x1 k1] g1]; [contradiction|]. destruct g2 as [|[x2 k2] g2]; [contradiction|].
+      inversion Hall1 as [|? ? [Hx1 Hk1] _]; subst. inversion Hall2 as [|? ? [Hx2 Hk2] _]; subst.
+      cbn [fst snd] in *.
+      apply (sq_dev_pos _ x1 k1 x2 k2 HP); try assumption.
+      + unfold ms_union. cbn [concat]. left. reflexivity.
+      + unfold ms_union. cbn [concat]. apply in_or_app. right. left. reflexivity.
+      + inversion Hnd as [|? ? Hni _]; subst. intros E. apply Hni. left. symmetry. exact E. }
+  destruct HN as [HN HE]. split.
+  - rewrite kruskal_unfold.
+    replace (ms_n (ms_union gs) <=? 1) with false by (symmetry; apply Z.leb_gt; lia).
+    replace (3 * sq_dev (ms_union gs) =? 0) with false by (symmetry; apply Z.eqb_neq; lia).
+    rewrite existsb_zero_intro; [reflexivity|].
+    intros g Hg. pose proof (Hpos g Hg). lia.
+  - unfold kruskal_value. cbn zeta. rewrite (kruskal_numerator gs HN Hpos).
+    set (P := ms_union gs) in *. set (N := ms_n P) in *.
+    assert (HD : 0 < N * N * N - N) by nia.
+    rewrite (qsum_eq (fun g => wsum (dc P) g) ms_n (fun g => wsum (fun w => dc P w * dc P w) g)).
+    2:{ intros g Hg. split; [apply Hpos, Hg|]. destruct (Hsv g Hg) as [v [_ Hv]].
+        rewrite !(single_valued_wsum _ v g Hv). ring. }
+    pose proof (sq_dev_groups gs) as Hsq. fold P in Hsq. rewrite Hsq.
+    rewrite (kruskal_scale N (sq_dev P) HN).
+    apply Qdiv_mult_l. unfold Qeq. cbn [Qnum Qden]. lia.
+Qed.
+
+Theorem kruskal_perfect vs gs :
+  Forall2 single_valued vs gs -> NoDup vs -> (2 <= List.length gs)%nat ->
+  exists h, kruskal gs = Some h /\ (h == inject_Z (ms_n (ms_union gs) - 1))%Q.
+Proof.
+  intros HF Hnd Hlen. destruct (kruskal_perfect_value vs gs HF Hnd Hlen) as [Hk Hv].
+  exists (Qred (kruskal_value gs)). split; [exact Hk|]. rewrite Qred_correct. exact Hv.
+Qed.
+
+(* with the upper bound: no feature on the same (or fewer) rows has a larger H *)
+Corollary kruskal_perfect_maximal vs gs gs' h' :
+  Forall2 single_valued vs gs -> NoDup vs -> (2 <= List.length gs)%nat ->
+  Forall (Forall (fun e : Z * Z => 0 < snd e)) gs' -> kruskal gs' = Some h' ->
+  ms_n (ms_union gs') <= ms_n (ms_union gs) ->
+  exists h, kruskal gs = Some h /\ (h == inject_Z (ms_n (ms_union gs) - 1))%Q /\ (h' <= h)%Q.
+Proof.
+  intros HF Hnd Hlen Hwf' Hk' Hn. destruct (kruskal_perfect vs gs HF Hnd Hlen) as [h [Hk Hh]].
+  exists h. split; [exact Hk|]. split; [exact Hh|]. rewrite Hh.
+  eapply Qle_trans; [apply (kruskal_upper_bound gs' h' Hwf' Hk')|].
+  rewrite <- Zle_Qle. lia.
+Qed.
+
+Theorem kruskal_perfect_is_maximal vs gs :
+  Forall2 single_valued vs gs -> NoDup vs -> (2 <= List.length gs)%nat ->
+  exists h, kruskal gs = Some h /\ (h == inject_Z (ms_n (ms_union gs) - 1))%Q /\
+    forall gs' h', Forall (Forall (fun e : Z * Z => 0 < snd e)) gs' -> kruskal gs' = Some h' ->
+                   ms_n (ms_union gs') <= ms_n (ms_union gs) -> (h' <= h)%Q.
+Proof.
+  intros HF Hnd Hlen. destruct (kruskal_perfect vs gs HF Hnd Hlen) as [h [Hk Hh]].
+  exists h. split; [exact Hk|]. split; [exact Hh|]. intros gs' h' Hwf' Hk' Hn.
+  destruct (kruskal_perfect_maximal vs gs gs' h' HF Hnd Hlen Hwf' Hk' Hn) as [h2 [Hk2 [_ Hle]]].
+  assert (h2 = h) by congruence. subst h2. exact Hle.
+Qed.
+
+Example kruskal_bound_examples :
+  kruskal [[(1, 3)]; [(5, 2)]; [(2, 4)]] = Some (8 # 1)%Q /\
+  kruskal [[(1, 2); (1, 1)]; [(7, 2)]] = Some (4 # 1)%Q /\
+  kruskal [[(1, 3); (5, 1)]; [(5, 2)]; [(2, 4); (1, 1)]] = Some (3441 # 784)%Q /\
+  kruskal [[(3, 2)]; [(3, 5)]] = None.
+Proof. repeat split; vm_compute; reflexivity. Qed.
+
+Print Assumptions kruskal_upper_bound.
+Print Assumptions kruskal_perfect.
+Print Assumptions kruskal_perfect_maximal.
+Print Assumptions kruskal_perfect_is_maximal.
